@@ -70,4 +70,39 @@ TEXT = {
         note="Trusted: the ground truth taken at step/step_end. For a Cancun self-beneficiary no-op either 0 or the balance is accepted as value.",
         technique="runtime monitoring: online assertions at inspector hooks on generated hostile workloads (plain run + inspected run, release + debug-assertions lanes)",
     ),
+    "C15": dict(
+        level="Held on every read observed (apart from the listed known finding): histories of transactions, balance increments/drains and merges run on State<RefDB> with and without bundle tracking (state clearing per spec); after every step every account/slot/code of the universe is read and compared with RefDB plus the independent applier; execution results are compared with the reference and with CacheDB<RefDB>.",
+        note="Trusted: evmrun::apply_evm_state (30 lines, written from the documented meaning of the EvmState flags) and the increment/drain reference. CacheDB is compared on execution results only, as the property states.",
+        technique="runtime monitoring: history + executable plain-state model (independent appliers) on real executions, release + debug-assertions lanes",
+    ),
+    "C16": dict(
+        level="Held on every history observed: the bundle's to_plain_state(Yes) and (No) applied to the pre-history plain state by an independent changeset applier must equal the post-history plain state built transaction by transaction; new contracts must be listed.",
+        note="Trusted: statehist::apply_changeset and the reference post-state. Merge schedules: per transaction, every 3, random, only at end; both retentions.",
+        technique="runtime monitoring: history + executable plain-state model (independent appliers) on real executions, release + debug-assertions lanes",
+    ),
+    "C17": dict(
+        level="Held on every history observed: walking to_plain_state_reverts() from the newest group down must reproduce the reference snapshot at every merge point (wiped => unlisted slots read as pre-bundle), and bundle.revert(j) followed by to_plain_state(No) on the pre-history state must equal the snapshot n-j, for every j.",
+        note="Trusted: statehist::apply_revert_group (the property's own reading of wiped/unlisted slots) and the reference snapshots.",
+        technique="runtime monitoring: history + executable plain-state model (independent appliers) on real executions, release + debug-assertions lanes",
+    ),
+    "C18": dict(
+        level="Held on every split point observed: A.extend(B) versus the monolithic bundle under the C16 and C17 oracles, take_n_reverts(k) for k in {0,1,split,n,n+1}, prepend_state value precedence.",
+        note="Trusted: as C16/C17. The fate of reverts in prepend_state is recorded as an observation only (the property speaks about values).",
+        technique="runtime monitoring: history + executable plain-state model (independent appliers) on real executions, release + debug-assertions lanes",
+    ),
+    "C19": dict(
+        level="Held on every prestate split observed (apart from the listed known finding): State over D with preloaded bundle B versus State over D+changeset(B): all universe reads after every step, execution results, and resulting changes under the changeset oracle.",
+        note="Trusted: as C16; D' is produced by the independent changeset applier.",
+        technique="runtime monitoring: history + executable plain-state model (independent appliers) on real executions, release + debug-assertions lanes",
+    ),
+    "C20": dict(
+        level="Held on every query observed (apart from the listed has_storage findings): ten wrapper configurations are asked basic/code_by_hash/storage/has_storage/block_hash (Database and DatabaseRef sides) over generated data and real commit histories, block numbers around the 256 window in pruning-triggering orders, against the plain reference.",
+        note="Trusted: the plain reference and the comparison modes (CacheDB modulo absent==empty). A wrong has_storage answer is reported without stopping the other comparisons.",
+        technique="runtime monitoring: differential queries of every wrapper against the plain reference over generated data and commit histories",
+    ),
+    "C21": dict(
+        level="Held on the complete directed product (apart from the listed has_storage findings): creation kind x 16 target shapes x endowment x 5 holders x SpecIds, with collision, gas consumption, untouched target, unmoved value and nonce bump checked.",
+        note="Trusted: the collision oracle (code or nonce or non-zero slot). With the has_storage finding open, storage-only collisions are effective only on a database that overrides has_storage (RefDB); the evidence lists the holders.",
+        technique="runtime monitoring: exhaustive directed sweep of a finite configuration product with a reference oracle",
+    ),
 }
